@@ -2702,8 +2702,11 @@ class Processor:
                         recurse(item, parent, parentref, reference_node,
                                 replacement_node)
             elif isinstance(data, (CommentedSet, set)):
-                data.discard(reference_node)
-                data.add(replacement_node)
+                if (reference_node in data
+                        and (data is parent
+                             or hasattr(reference_node, "anchor"))):
+                    data.discard(reference_node)
+                    data.add(replacement_node)
             elif isinstance(data, OrderedDict):
                 # Manual key (re)ordering is necessary and YMKs are not
                 # supported.
